@@ -796,7 +796,162 @@ func genNumscript(r *rng, n int, tier string, emit func(J)) {
 			}
 		}
 		emit(J{"text": printScript(ast), "ast": ast, "vars": vars, "meta": meta, "bal": bal, "ameta": ameta, "mut": g.bad > 0, "shape": prof})
+		// C02: one program in eight is followed by a variant of itself in which an account in source position is ALSO the
+		// value of a fresh account variable that is no source (a destination, a `save` / `set_account_meta` target).  Drawn
+		// from this program's own generator (a fork of the main one) AFTER the program is complete, so the base programs
+		// of a seed are exactly what they were without the variants.
+		if g.r.p(13) {
+			if v := g.aliasVariant(ast, vars, ameta); v != nil {
+				emit(J{"text": printScript(asJ(v["ast"])), "ast": v["ast"], "vars": v["vars"], "meta": meta, "bal": bal, "ameta": v["ameta"],
+					"mut": g.bad > 0, "alias": v["alias"]})
+			}
+		}
 	}
+}
+
+// ---- aliasing variants (C02: "whichever way the source account is named")
+
+func deepCopy(x any) any {
+	b, _ := json.Marshal(x)
+	var y any
+	json.Unmarshal(b, &y)
+	return y
+}
+
+func sourceAcctExprs(s J, out *[]J) {
+	switch s["k"] {
+	case "acct":
+		*out = append(*out, asJ(s["e"]))
+	case "max":
+		sourceAcctExprs(asJ(s["s"]), out)
+	case "inorder":
+		for _, x := range s["ss"].([]any) {
+			sourceAcctExprs(asJ(x), out)
+		}
+	}
+}
+
+func stmtSourceExprs(st J) []J {
+	var out []J
+	if st["k"] != "send" {
+		return nil
+	}
+	src := asJ(st["src"])
+	if src["k"] == "src" {
+		sourceAcctExprs(asJ(src["s"]), &out)
+	} else {
+		for _, x := range src["items"].([]any) {
+			sourceAcctExprs(asJ(asJ(x)["s"]), &out)
+		}
+	}
+	return out
+}
+
+// the nodes {"k":"acct","e":…} of a destination tree
+func destLeaves(d J, out *[]J) {
+	kd := func(k J) {
+		if k["k"] == "to" {
+			destLeaves(asJ(k["d"]), out)
+		}
+	}
+	switch d["k"] {
+	case "acct":
+		*out = append(*out, d)
+	case "inorder":
+		for _, x := range d["caps"].([]any) {
+			kd(asJ(asJ(x)["kd"]))
+		}
+		kd(asJ(d["rest"]))
+	case "allot":
+		for _, x := range d["items"].([]any) {
+			kd(asJ(asJ(x)["kd"]))
+		}
+	}
+}
+
+// aliasVariant returns {"ast","vars","ameta","alias"} or nil when the program has no usable source account.
+func (g *nsGen) aliasVariant(ast0 J, vars0 J, ameta0 [][]string) J {
+	ast := asJ(deepCopy(ast0))
+	stmts := ast["stmts"].([]any)
+	// the accounts in source position, with the value each is meant to take
+	type cand struct{ val, how string }
+	var cands []cand
+	for _, x := range stmts {
+		for _, e := range stmtSourceExprs(asJ(x)) {
+			switch e["k"] {
+			case "acct":
+				if v := e["v"].(string); v != "world" {
+					cands = append(cands, cand{v, "lit"})
+				}
+			case "var":
+				for _, w := range g.vars {
+					if w.name == e["v"] && w.ty == "account" && w.origin == nil {
+						cands = append(cands, cand{w.value, "var"})
+					} else if w.name == e["v"] && w.ty == "account" {
+						cands = append(cands, cand{w.value, "meta"})
+					}
+				}
+			}
+		}
+	}
+	if len(cands) == 0 {
+		return nil
+	}
+	c := cands[g.r.n(len(cands))]
+	// the fresh variable: plain or read from metadata; declared first (lowest resource index) or last
+	decl := J{"ty": "account", "name": "al", "origin": nil}
+	vars := J{}
+	for k, v := range vars0 {
+		vars[k] = v
+	}
+	ameta := append([][]string{}, ameta0...)
+	origin := "var"
+	if g.r.p(50) {
+		origin = "meta"
+		holder := g.r.pick([]string{"reg", "a", "c"})
+		decl["origin"] = J{"k": "meta", "acc": lit("acct", holder), "key": "ka"}
+		ameta = append(ameta, []string{holder, "ka", c.val})
+	} else {
+		vars["al"] = c.val
+	}
+	decls, _ := ast["vars"].([]any)
+	pos := "first"
+	if len(decls) > 0 && g.r.p(30) {
+		pos = "last"
+		decls = append(decls, decl)
+	} else {
+		decls = append([]any{decl}, decls...)
+	}
+	ast["vars"] = decls
+	// where the variable is used — never as a source
+	al := lit("var", "al")
+	use := ""
+	var leaves []J
+	for _, x := range stmts {
+		if st := asJ(x); st["k"] == "send" {
+			destLeaves(asJ(st["dst"]), &leaves)
+		}
+	}
+	switch k := g.r.n(10); {
+	case k < 4 && len(leaves) > 0:
+		use = "dest"
+		leaves[g.r.n(len(leaves))]["e"] = al
+	case k < 6:
+		use = "dest-of-added-send"
+		stmts = append(stmts, J{"k": "send", "amt": J{"k": "mon", "e": J{"k": "mon", "asset": lit("asset", "USD"), "amt": "1"}},
+			"src": J{"k": "src", "s": J{"k": "acct", "e": lit("acct", "world"), "od": nil}}, "dst": J{"k": "acct", "e": al}, "destFirst": false})
+	case k < 8:
+		use = "setmeta"
+		stmts = append(stmts, J{"k": "setAccountMeta", "acc": al, "key": "m1", "v": lit("num", "1")})
+	case k < 9:
+		use = "save"
+		st := J{"k": "saveMon", "e": J{"k": "mon", "asset": lit("asset", "USD"), "amt": "1"}, "acc": al}
+		stmts = append([]any{st}, stmts...) // a save acts on what follows
+	default:
+		use = "unused" // declared, resolved (hence involved), never mentioned again
+	}
+	ast["stmts"] = stmts
+	return J{"ast": ast, "vars": vars, "ameta": ameta, "alias": c.how + "-source+" + origin + "-" + use + "-" + pos}
 }
 
 // ------------------------------------------------------------------ pretty printer (AST -> text)
